@@ -26,6 +26,8 @@ type HarnessSpec struct {
 	MaxSteps int64          // SSA instruction budget per path
 	POR      bool           // sleep-set partial-order reduction
 	Replay   string         // "native": run the same harness natively with the model; "" none
+	ReplayPkg  string       // native replay runs this package's ...
+	ReplayFunc string       // ... function instead (reads the same model variables)
 	Params   map[string]int // harness parameters (zz.Param)
 	TParams  map[string]int // overrides for the thorough tier
 	Twin     bool           // run the vacuity twin (zz.Twin() makes final assertions false)
@@ -153,7 +155,7 @@ func runHarness(ld *Loaded, spec HarnessSpec, tier string, workers int, twin boo
 				funcs, stubs, reached := map[string]int{}, map[string]int{}, map[string]int{}
 				i := &Interp{ld: ld, prog: ld.prog, globals: map[*ssa.Global]*value{}, solver: solver, ex: ex,
 					inited: map[*ssa.Package]bool{}, funcs: funcs, stubs: stubs, unwind: unwind,
-					maxSteps: maxSteps, reached: reached, symvals: map[string]*Term{}, names: map[string]int{}, params: params}
+					maxSteps: maxSteps, reached: reached, symvals: map[string]*Term{}, names: map[string]int{}, params: params, hpkg: spec.pkgPath()}
 				i.initConc(spec.POR)
 				end := runPath(i, h)
 				i.killAll()
@@ -298,7 +300,7 @@ func runPath(i *Interp, h *ssa.Function) (end string) {
 		case engineFault:
 			end = "FAULT: " + r.msg
 		default:
-			panic(r)
+			end = fmt.Sprintf("FAULT: engine panic: %v", r)
 		}
 	}()
 	i.callSSA(nil, h, nil, nil)
